@@ -41,6 +41,7 @@ type cplan struct {
 	methods   []*mplan
 	shared    *mplan // static method that other classes may call
 	comment   string
+	lead      []string // blank / white-space-only lines before the first token of the file
 }
 
 // body collects the statements of one method and keeps "one assertion method name = one receiver form and arity".
@@ -766,10 +767,22 @@ func (g *gen) composeMainClass(f *File) *cplan {
 
 func pkgPath(pkg string) string { return strings.ReplaceAll(pkg, ".", "/") }
 
+// Opts steer single dimensions of a tree.
+type Opts struct {
+	// MavenRoot: Maven layout whose src/ lies directly in the tree root (no module prefix) and whose first test
+	// class is a test file only by its directory (name without the Test / Tests suffix).
+	MavenRoot bool
+}
+
 // Generate builds one tree. Everything is drawn from r.
-func Generate(r *run.Rand) *Tree {
+func Generate(r *run.Rand) *Tree { return GenerateWith(r, Opts{}) }
+
+func GenerateWith(r *run.Rand, opt Opts) *Tree {
 	g := &gen{r: r}
 	t := &Tree{Layout: g.r.Pick([]string{"flat", "flat", "nested", "nested", "nested", "maven", "maven", "maven", "maven"})}
+	if opt.MavenRoot {
+		t.Layout = "maven"
+	}
 	pkgs := []string{g.r.Pick(basePackages)}
 	if g.r.Chance(1, 3) {
 		p2 := g.r.Pick(basePackages)
@@ -784,6 +797,9 @@ func Generate(r *run.Rand) *Tree {
 	module := ""
 	if t.Layout == "maven" && g.r.Chance(1, 4) {
 		module = g.r.Pick([]string{"core/", "modules/service-a/"})
+	}
+	if opt.MavenRoot {
+		module = ""
 	}
 	nTest := g.weighted(1, 1, 2, 2, 2, 3, 3, 4)
 	nMain := g.weighted(0, 1, 1, 1, 2, 2)
@@ -801,7 +817,7 @@ func Generate(r *run.Rand) *Tree {
 		if noPackage {
 			f.Package = ""
 		}
-		if t.Layout == "maven" && g.r.Chance(3, 10) {
+		if t.Layout == "maven" && (g.r.Chance(3, 10) || (opt.MavenRoot && i == 0)) {
 			f.Role = RoleTestByDir
 			f.Class = base + g.r.Pick([]string{"IT", "Spec", "Checks", "Fixtures", "Scenario", "TestCase"})
 		} else {
@@ -892,6 +908,12 @@ func Generate(r *run.Rand) *Tree {
 		plans = append(plans, g.composeMainClass(f))
 	}
 	for _, cp := range plans {
+		// some files start with 1-3 empty or white-space-only lines (before the header comment / package line)
+		if g.r.Chance(1, 5) {
+			for i, n := 0, g.r.Range(1, 3); i < n; i++ {
+				cp.lead = append(cp.lead, g.r.Pick([]string{"", "", "", "  ", "\t"}))
+			}
+		}
 		render(cp)
 	}
 	return t
